@@ -173,6 +173,7 @@ func c15Rules(c *core.Ctx, k *core.Case) {
 	c.Eval(1)
 	lib := libRules(model)
 	got, err := lib.MarshalBinary()
+	c.Hold(k, "nasType.QoSRules.MarshalBinary", got)
 	if err != nil {
 		c.Fail(k, "rules-marshal-error", fmt.Sprintf("MarshalBinary of a well-formed rule list failed: %v (reference bytes %s)", err, hx(want)))
 		return
@@ -261,6 +262,7 @@ func c15Descs(c *core.Ctx, k *core.Case) {
 	}
 	c.Eval(1)
 	got, err := lib.MarshalBinary()
+	c.Hold(k, "nasType.QoSFlowDescs.MarshalBinary", got)
 	if err != nil || !bytes.Equal(got, want) {
 		c.Fail(k, "descs-layout", fmt.Sprintf("QoSFlowDescs.MarshalBinary = %s (%v), TS 24.501 9.11.4.12 layout %s", hx(got), err, hx(want)))
 		return
